@@ -12,11 +12,14 @@ from .. import native
 
 MAX_SUCCESS_ATTEMPT = 2      # initialisation may succeed at attempt 1 or 2, or never (all 500 fail)
 MAX_DRAWS = 2                # loop iterations explored
+NCHAINS = 2; MAXCMD = 2      # controller queries
 
 def run(rep):
+    global MAX_DRAWS, MAXCMD
     mir = load_mir(rep); L = Layouts(REPO)
+    if rep.tier == 'thorough': MAX_DRAWS = 3; MAXCMD = 3
     rep.bounds = {'chain closure': 'from its start through at most %d draw-loop iterations' % MAX_DRAWS, 'initialisation': 'success explored at attempts 1..%d and "never" (all 500 attempts fail); init_position failure at attempts 1..%d' % (MAX_SUCCESS_ATTEMPT, MAX_SUCCESS_ATTEMPT + 1),
-                  'call outcomes': 'model construction, init_position, set_position, expanded_draw, record_sample, channel receive, trace slot: every outcome symbolic'}
+                  'controller': '%d chains, <= %d commands in the command loop, <= 1 inside the thread-body query; <= 3 receives in wait_timeout' % (NCHAINS, MAXCMD), 'call outcomes': 'model construction, init_position, set_position, expanded_draw, record_sample, channel receive, trace slot: every outcome symbolic'}
     rep.assumptions += ['mutexes are not poisoned (the two lock().expect("Poisoned mutex") are excluded, listed here)', 'rayon / channels / threads are not modelled: only the sequential closure body',
                         'recoverable density errors never leave leapfrog as Err (C05.1), so only unrecoverable ones reach expanded_draw as Err']
     rep.outside += ['hanging, interleavings with other chains and the controller, what rayon does with a panic (C10-C12 not applicable)']
@@ -236,7 +239,6 @@ def wait_and_abort(rep, mir, L):
     if not bad: rep.holds('C13.3 Sampler::wait_timeout (<= %d receives): a chain error or controller/finalisation error always yields SamplerWaitResult::Err, Trace only after a clean finish, Timeout otherwise (%d paths)' % (MAXR, len(outs)), time.time() - t0)
     for r in ('Err', 'Trace', 'Timeout'): rep.cover('C13.3 wait_timeout result reachable: %s' % r, r in res)
 
-NCHAINS = 2; MAXCMD = 2
 def _storage_models(vm):
     vm.add_model(r'anyhow::Context<.*>>::context::<|^anyhow::error::<impl anyhow::Error>::context::<', _context)
     vm.add_model(r'^<Arc<.*> as Deref>::deref$', lambda vm, m, c, a: ret(m, a[0]))
